@@ -79,6 +79,9 @@ func init() {
 				}
 				o.Count("op:" + f[1])
 				switch f[1] {
+				case "loglevel": // level
+					l, _ := strconv.Atoi(f[2])
+					return evLogLevel(c.out, l)
 				case "retime": // backend wait_ms new_ms
 					a, _ := strconv.Atoi(f[3])
 					b, _ := strconv.Atoi(f[4])
@@ -230,6 +233,7 @@ func init() {
 					a, b = b, a
 				}
 				emit("ev", "janitor", []string{"mem", "file"}[r.Intn(2)], itoa(a), itoa(b))
+				emit("ev", "loglevel", itoa([]int{-4, 0, 4, 8, 2, -8}[r.Intn(6)]))
 				emit("ev", "retime", []string{"mem", "file"}[r.Intn(2)], itoa([]int{5, 40, 80}[r.Intn(3)]), itoa([]int{4, 10, 25}[r.Intn(3)]))
 				emit("ev", "shutdown", []string{"mem", "file"}[r.Intn(2)], []string{"destroy", "cancel-destroy", "destroy-cancel", "pending-change", "pending-change"}[r.Intn(5)])
 			}
